@@ -50,8 +50,8 @@ A_PY = [
     "w = 2",
     "_pw = 3",
 ]
-INIT_PY = ["from pkg.a import f as f", "from pkg.a import K", "from pkg._priv import helper", '__all__ = ["f", "K", "VALUE", "Sub"{EXTRA_ALL}]', "VALUE = 1", "class Sub(K):\n    pass"]
-PRIV_PY = ["def helper(): ..."]
+INIT_PY = ["from pkg.a import f as f", "from pkg.a import K", "from pkg._priv import helper", "from pkg._priv import pub_helper", '__all__ = ["f", "K", "VALUE", "Sub", "pub_helper"{EXTRA_ALL}]', "VALUE = 1", "class Sub(K):\n    pass"]
+PRIV_PY = ["def helper(): ...", "def pub_helper(a): ..."]  # pub_helper: defined in a private module, public only through the re-export pkg.pub_helper
 VARIANTS = {
     "plain": {"init_extra": [], "a_extra": [], "all": ""},
     "unresolvable-reexport": {"init_extra": ["from pkg.missing import gone"], "a_extra": [], "all": ', "gone"'},
@@ -61,7 +61,7 @@ VARIANTS = {
 PUBLIC = {
     "pkg.a.f": {"pkg.a.f", "pkg.f"}, "pkg.a.K": {"pkg.a.K", "pkg.K"}, "pkg.a.K.attr": {"pkg.a.K.attr", "pkg.K.attr", "pkg.Sub.attr"},
     "pkg.a.K.m": {"pkg.a.K.m", "pkg.K.m", "pkg.Sub.m"}, "pkg.a.Base.bm": {"pkg.a.Base.bm", "pkg.a.K.bm", "pkg.K.bm", "pkg.Sub.bm", "pkg.a.L.bm"},
-    "pkg.a.L": {"pkg.a.L"}, "pkg.a.L.lm": {"pkg.a.L.lm"}, "pkg.a.L.lattr": {"pkg.a.L.lattr"},
+    "pkg.pub_helper": {"pkg.pub_helper"}, "pkg.a.L": {"pkg.a.L"}, "pkg.a.L.lm": {"pkg.a.L.lm"}, "pkg.a.L.lattr": {"pkg.a.L.lattr"},
     "pkg.a.f@definition": {"pkg.a.f"}, "pkg.a.Base.bm@definition": {"pkg.a.Base.bm"},
     "pkg.a.Base": {"pkg.a.Base"}, "pkg.a._PB.pbm": {"pkg.a.Base.pbm", "pkg.a.K.pbm", "pkg.K.pbm", "pkg.Sub.pbm", "pkg.a.L.pbm"}, "pkg.a.w": {"pkg.a.w"}, "pkg.VALUE": {"pkg.VALUE"}, "pkg.Sub": {"pkg.Sub"}, "pkg.a.Base.battr": {"pkg.a.Base.battr", "pkg.a.K.battr", "pkg.K.battr", "pkg.Sub.battr", "pkg.a.L.battr"},
 }
@@ -106,6 +106,11 @@ def catalogue():
     edit("remove-base-L", False, A, lambda s: _sub(s, "class L(Base):", "class L:"), ("pkg.a.L", "Base class was removed", "pkg.a.L"))
     edit("remove-method-lm", False, A, lambda s: _sub(s, "\n    def lm(self): ...", ""), ("pkg.a.L.lm", "removed", "pkg.a.L"))
     edit("change-lattr-value", False, A, lambda s: _sub(s, "    lattr = 1", "    lattr = 2"), ("pkg.a.L.lattr", "value was changed", "pkg.a.L"))
+    edit("swap-base", False, A, lambda s: _sub(s, "class L(Base):", "class L(_PB):"), ("pkg.a.L", "Base class was removed", "pkg.a.L"))
+    edit("rekind-reexported-from-private-module", False, P, lambda s: _sub(s, "def pub_helper(a): ...", "pub_helper = 1"), ("pkg.pub_helper", "kind", None))
+    edit("remove-reexported-from-private-module", False, None, lambda fs: {**fs, "pkg/_priv.py": [x for x in fs["pkg/_priv.py"] if not x.startswith("def pub_helper")],
+                                                                           "pkg/__init__.py": [x.replace(', "pub_helper"', "") for x in fs["pkg/__init__.py"] if x != "from pkg._priv import pub_helper"]},
+         ("pkg.pub_helper", "removed", None))
     edit("change-attr-value", False, A, lambda s: _sub(s, "    attr = 1", "    attr = 2"), ("pkg.a.K.attr", "value was changed", "pkg.a.K"))
     edit("change-w-value", False, A, lambda s: _sub(s, "w = 2", "w = 5"), ("pkg.a.w", "value was changed", None))
     edit("remove-w", False, A, lambda s: [x for x in s if x != "w = 2"], ("pkg.a.w", "removed", None))
@@ -219,17 +224,26 @@ def judge(griffe, variant, script, old_pkg, new_pkg):
             bare = target.split("@")[0]
             if container in lost or any(bare != l and bare.startswith(l + ".") for l in lost) or (target != bare and bare in lost):
                 continue
-            if e["name"] in ("remove-base", "remove-base-L") and "pkg.a.Base" in lost:
+            if kind_sub != "removed" and any(x["expect"][0].split("@")[0] == bare and x["expect"][1] == "removed" for x in incompat if x is not e):
+                continue  # the same object is also removed by the script: the removal is what has to be reported
+            if e["name"] in ("remove-base", "remove-base-L", "swap-base") and "pkg.a.Base" in lost:
                 continue
             if e["name"] == "drop-reexport" and "pkg.a.f" in lost:
                 continue
             paths = PUBLIC[target] if e["name"] != "drop-reexport" else {"pkg.f"}
             hit = [s for s in seen if s[1] in paths and kind_sub.lower() in s[0].lower()]
+            private_def = {"pkg.pub_helper": "pkg._priv.pub_helper"}.get(target)
+            if not hit and private_def and any(s[1] == private_def and kind_sub.lower() in s[0].lower() for s in seen):
+                # reported, but against the canonical path inside the private module instead of a public path of the object
+                viols.append((f"wrong-path/{e['name']}", f"edit {e['name']} on {target}: the '{kind_sub}' breakage is reported at {private_def}, none of the object's public paths {sorted(paths)}"))
+                hit = True
             if not hit:
                 others = "+".join(sorted({x["name"] for x in edits if x is not e})) or "alone"
                 viols.append((f"silent/{e['name']}/{'alone' if others == 'alone' else 'with-' + others}", f"edit {e['name']} on {target}: no '{kind_sub}' breakage at any of {sorted(paths)}; reported: {seen[:4]}"))
     for kind, path in seen:
         last = path.rsplit(".", 1)[-1]
+        if path == "pkg._priv.pub_helper":
+            continue  # judged above (wrong-path/...): one diagnosis per cause
         if any(last == m or f".{m}." in path + "." for m in PRIVATE_MARKERS):
             viols.append((f"noise/private/{last}/{kind}", f"breakage reported on private / not exported object {path} ({kind})"))
     return viols, seen
